@@ -32,6 +32,7 @@ MUTANTS = [
     ('pyworkers/process.py', "        self._child.join(timeout)\n        alive = self._child.is_alive()\n        if not alive:\n            self._dead = True\n        return not alive\n\n    def terminate", "        self._child.join()\n        alive = self._child.is_alive()\n        if not alive:\n            self._dead = True\n        return not alive\n\n    def terminate", 'process wait() ignores its timeout'),
     ('pyworkers/thread.py', "        alive = self._child.is_alive()\n        if not alive:\n            self._dead = True\n        return not alive\n\n    def terminate", "        alive = self._child.is_alive()\n        self._dead = True\n        return True\n\n    def terminate", 'thread wait() always claims the worker is dead'),
     ('pyworkers/process.py', "        if not self.is_alive():\n            return True\n        else:\n            try:\n                self._ctrl_comms.parent_end.put('terminate')", "        if False:\n            return True\n        else:\n            try:\n                self._ctrl_comms.parent_end.put('terminate')", 'terminate on a dead process worker sends on the control pipe again'),
+    ('pyworkers/process.py', "            timeout = max(0, deadline - time.monotonic())\n", "            pass\n", 'process wait() spends its timeout twice (once watching the pipe, once joining)'),
     ('pyworkers/remote.py', "                remote_timeout = min(remote_timeout, timeout)\n\n        if self.is_child:\n            raise ValueError('A worker cannot wait for itself')", "                remote_timeout = max(remote_timeout, timeout)\n\n        if self.is_child:\n            raise ValueError('A worker cannot wait for itself')", 'remote wait() may wait longer remotely than the caller allowed'),
 ]
 
@@ -46,6 +47,14 @@ def build(ex):
     def install_cost(ex_):
         ac = ex_.abs_classes['Proc']
 
+        def spend(ex2, budget):
+            """a blocking call with a time budget takes some time 0 <= d <= budget (T9); the ghost clock and the cost advance by d"""
+            d = ex2.fresh('elapsed', smt.Real)
+            ex2.assume(z3.And(d >= 0, d <= z3.If(budget > 0, budget, 0)))
+            ex2.ghost['cost'] = ex2.ghost['cost'] + d
+            ex2.ghost['clock'] = ex2.ghost['clock'] + d
+            return d
+
         def join(ex2, a, k):
             t = a[1] if len(a) > 1 else k.get('timeout', NONE)
             ex2.ghost['joins'] = ex2.ghost['joins'] + 1
@@ -55,10 +64,10 @@ def build(ex):
             elif isinstance(t, VSym):
                 none = t.t == Val.v_none
                 ex2.ghost['unbounded'] = z3.Or(ex2.ghost['unbounded'], none)
-                ex2.ghost['cost'] = ex2.ghost['cost'] + z3.If(none, 0, Val.vr(t.t))
+                spend(ex2, z3.If(none, 0, Val.vr(t.t)))
             else:
                 tt, _ = ex2.interp.as_num(t, None)
-                ex2.ghost['cost'] = ex2.ghost['cost'] + (z3.ToReal(tt) if tt.sort() == smt.Int else tt)
+                spend(ex2, z3.ToReal(tt) if tt.sort() == smt.Int else tt)
             al = ac.get(ex2, a[0], 'alive')
             ac.set(ex2, a[0], 'alive', z3.And(al, ex2.fresh('alive_after_join', smt.Bool)))
             return NONE
@@ -70,11 +79,44 @@ def build(ex):
                 ex2.ghost['unbounded'] = z3.BoolVal(True)
             else:
                 tt, _ = ex2.interp.as_num(t, None)
-                ex2.ghost['cost'] = ex2.ghost['cost'] + (z3.ToReal(tt) if tt.sort() == smt.Int else tt)
+                spend(ex2, z3.ToReal(tt) if tt.sort() == smt.Int else tt)
             return orig(ex2, a, k)
         if not getattr(ex_.abs_classes['Conn'].methods['poll'], '_costed', False):
             poll._costed = True
             ex_.abs_classes['Conn'].methods['poll'] = poll
+        def conn_wait(ex2, args, k):
+            """connection.wait([result pipe, sentinel], timeout): T3/T4 - returns the readable pipe, the sentinel of an exited child, or nothing after `timeout`"""
+            lst = ex2.heap[args[0].addr].items
+            t = args[1] if len(args) > 1 else k.get('timeout', NONE)
+            pipes = [x for x in lst if isinstance(x, VRef)]
+            outs = (['pipe'] if pipes else []) + ['sentinel'] + ([] if t is NONE else ['timeout'])
+            d = outs[ex2.choose(len(outs), 'connection.wait')]
+            ex2.note(f'connection.wait:{d}')
+            if t is NONE:
+                # legitimate only as "until the child reports or exits": both are in the list
+                ex2.ghost['unbounded'] = z3.BoolVal(True)
+            else:
+                tt, _ = ex2.interp.as_num(t, None)
+                tt = z3.ToReal(tt) if tt.sort() == smt.Int else tt
+                el = spend(ex2, tt)
+                if d == 'timeout':
+                    ex2.assume(el == z3.If(tt > 0, tt, 0))
+            if d == 'timeout':
+                return ex2.alloc(HList([]))
+            if d == 'pipe':
+                pe = pipes[0]
+                c = ex2.heap[pe.addr].attrs['_pipe']
+                cc = ex2.abs_classes['Conn']
+                ex2.assume(z3.Or(cc.get(ex2, c, 'ipos') < z3.Length(cc.get(ex2, c, 'inq')), cc.get(ex2, c, 'peer_closed')))      # readable: a message or EOF
+                return ex2.alloc(HList([pe]))
+            child = ex2.ghost.get('__child__')
+            if child is not None:
+                ac.set(ex2, child, 'alive', z3.BoolVal(False))      # the sentinel is ready: the child has exited
+            return ex2.alloc(HList([x for x in lst if not isinstance(x, VRef)]))
+        ex_.ghost['__conn_wait__'] = conn_wait
+        ex_.ghost['clock'] = ex_.fresh('clock0', smt.Real)
+        ex_.ext_models['time.monotonic'] = lambda ex2, a, k: VReal(ex2.ghost['clock'])
+        ex_.ext_models['time.time'] = lambda ex2, a, k: VReal(ex2.ghost['clock'])
         ex_.ghost['cost'] = z3.RealVal(0)
         ex_.ghost['joins'] = z3.IntVal(0)
         ex_.ghost['unbounded'] = z3.BoolVal(False)
@@ -99,8 +141,10 @@ def build(ex):
         a['_started'] = ex_.interp.sym('started', 'bool')
         # never-run workers have no child handle; the asserts of is_child are about started workers
         install_cost(ex_)
+        ex_.ghost['__child__'] = env['child']
         ac = ex_.abs_classes['Conn']
         ac.set(ex_, env['ctrl_parent'], 'peer_closed', ex_.fresh('child_ctrl_closed', smt.Bool))
+        ex_.ghost['chan_elem_inv'] = {'comms.parent': workers.final_msg_inv}
 
     def timeout_variants():
         def none(ex_, env):
